@@ -207,7 +207,7 @@ def out_arrays(st):
     return [(a, stt) for a, stt in st.status.items() if a.name.startswith(('Out', 'Copy', 'Heap'))]
 
 
-def end_checks(ex, s2, kind, val, inputs, N, J, where='end'):
+def end_checks(ex, s2, kind, val, inputs, N, J, where='end', in_ty='T', out_ty=None):
     """generic end-of-scenario obligations for an operation that consumes `inputs` (arrays) and builds outputs"""
     inA = ULT(J, N)
     if kind == 'ret':
@@ -226,10 +226,14 @@ def end_checks(ex, s2, kind, val, inputs, N, J, where='end'):
     else:
         if ex.order:
             ex.require(s2, z3.BoolVal('own_panic' not in s2.notes), 'the operation panics on its own although no caller-supplied code panicked', where + '(unwind)')
+        # an element without drop glue that is abandoned on unwind is not a leak: where the element type of an array is known and the code
+        # asks `needs_drop` of it, the leak obligation is stated for element types that need dropping
+        nd_in = ex.needs_drop.get(in_ty, z3.BoolVal(True)) if in_ty else z3.BoolVal(True)
+        nd_out = ex.needs_drop.get(out_ty, z3.BoolVal(True)) if out_ty else z3.BoolVal(True)
         for A in inputs:
-            ex.require(s2, z3.Implies(inA, z3.Or(s2.status[A] == EXTERN, s2.status[A] == DROPPED)), 'input element leaked on unwind', where + '(unwind)')
+            ex.require(s2, z3.Implies(z3.And(inA, nd_in), z3.Or(s2.status[A] == EXTERN, s2.status[A] == DROPPED)), 'input element leaked on unwind', where + '(unwind)')
         for arr, stt in out_arrays(s2):
-            ex.require(s2, z3.Implies(inA, z3.Or(stt == UNINIT, stt == DROPPED)), 'already-built output element leaked on unwind', where + '(unwind)')
+            ex.require(s2, z3.Implies(z3.And(inA, nd_out), z3.Or(stt == UNINIT, stt == DROPPED)), 'already-built output element leaked on unwind', where + '(unwind)')
     if ex.V is not None:
         ex.require(s2, ex.stat(s2, ex.V) != HELD, 'value produced by caller code lost (neither stored, dropped nor returned)', where)
     for blk, owner in s2.blocks.items():
@@ -255,7 +259,7 @@ def op_generate(fns, src, nmax, boxed=False, name=None):
     for (s2, kind, val) in ex.run_fn(st, fn, [Opaque('F')]):
         paths += 1
         unw += kind == 'unwind'
-        end_checks(ex, s2, kind, val, [], N, J)
+        end_checks(ex, s2, kind, val, [], N, J, out_ty='T')
     return finish(res, ex, t0, paths, unw)
 
 
@@ -274,7 +278,7 @@ def op_map(fns, src, nmax, name=None):
     for (s2, kind, val) in ex.run_fn(st, fn, [A, Opaque('F')]):
         paths += 1
         unw += kind == 'unwind'
-        end_checks(ex, s2, kind, val, [A], N, J)
+        end_checks(ex, s2, kind, val, [A], N, J, out_ty='U')
     return finish(res, ex, t0, paths, unw)
 
 
